@@ -603,6 +603,11 @@ def check(ctx: Ctx) -> None:
                 v_ = repo.fold_in(w.test.comparators[0], f_srv_)
                 if v_ is not UNKNOWN:
                     want_markers.add(v_)
+            if isinstance(w, ast.If) and isinstance(w.test, ast.Compare) and len(w.test.ops) == 1 and isinstance(w.test.ops[0], ast.Eq) \
+                    and len(w.body) == 1 and isinstance(w.body[0], ast.Break) and not w.orelse:
+                v_ = repo.fold_in(w.test.comparators[0], f_srv_)   # while True: msg = channel.receive(); if msg == SENTINEL: break
+                if v_ is not UNKNOWN:
+                    want_markers.add(v_)
             if isinstance(w, ast.For) and isinstance(w.iter, ast.Call) and isinstance(w.iter.func, ast.Name) and w.iter.func.id == "iter" and len(w.iter.args) == 2:
                 v_ = repo.fold_in(w.iter.args[1], f_srv_)   # for msg in iter(channel.receive, SENTINEL)
                 if v_ is not UNKNOWN:
